@@ -532,6 +532,38 @@ int main(int argc, char** argv) {
                      judge_i64((int64_t)r.next() >> r.below(63), k == 1);
                    }
                  }});
+    // arrays of many 15..20-digit integers through Serialize: number nodes reached with little buffer capacity left, so
+    // that the buffer grows (and may move) right before digits are written
+    S.push_back({"arrays_of_long_integers_serialised", 1500, 100000, [](uint64_t, vf::Rng& r) {
+                   size_t n = r.range(1, 120);
+                   su::PoolDoc d;
+                   d.SetArray();
+                   std::string expect = "[";
+                   for (size_t k = 0; k < n; k++) {
+                     char b[32];
+                     if (r.coin()) {
+                       uint64_t x = r.next() | (r.coin() ? 0x8000000000000000ULL : 0x0100000000000000ULL);
+                       d.PushBack(su::PoolNode(x), d.GetAllocator());
+                       snprintf(b, sizeof b, "%llu", (unsigned long long)x);
+                     } else {
+                       int64_t x = -(int64_t)(r.next() >> 1) - 1;
+                       d.PushBack(su::PoolNode(x), d.GetAllocator());
+                       snprintf(b, sizeof b, "%lld", (long long)x);
+                     }
+                     expect += (k ? "," : "") + std::string(b);
+                   }
+                   expect += "]";
+                   vf::witness(expect);
+                   vf::eval();
+                   vf::distinct(vf::hash_str(expect));
+                   c_node.add();
+                   WriteBuffer wb(r.coin() ? 0 : r.range(1, 300));
+                   vf::note("Serialize(array of long integers)");
+                   SonicError e = d.Serialize(wb);
+                   std::string out(wb.ToString(), wb.Size());
+                   if (e != kErrorNone || out != expect)
+                     vf::violation("integer-array-serialisation", "Serialize of " + std::to_string(n) + " long integers gave " + vf::printable(out, 200) + " expected " + vf::printable(expect, 200));
+                 }});
     // repeated-digit and carry patterns in each 4-digit and 8-digit group
     S.push_back({"digit_patterns", 2000, 100000, [](uint64_t, vf::Rng& r) {
                    for (int k = 0; k < 50; k++) {
